@@ -292,6 +292,16 @@ class ValidatedReadBucketProxy(log.PrefixingLogMixin):
             bh = dict(enumerate(blockhashes))
 
             try:
+                if not self.block_hash_tree[0]:
+                    # The root of the block hash tree must come from the
+                    # (validated) share hash tree, never from the share
+                    # itself: otherwise a share whose blocks and block hash
+                    # tree were replaced consistently would validate.
+                    share_hash = self.share_hash_tree.get_leaf(self.sharenum)
+                    if not share_hash:
+                        raise hashtree.NotEnoughHashesError(
+                            "no share hash for share %d" % self.sharenum)
+                    self.block_hash_tree.set_hashes({0: share_hash})
                 self.block_hash_tree.set_hashes(bh)
             except IndexError as le:
                 raise BadOrMissingHash(le)
